@@ -8,6 +8,7 @@ R = os.path.dirname(os.path.dirname(os.path.abspath(__file__)))
 sys.path.insert(0, os.path.join(R, "gen"))
 import pinlib
 repo = sys.argv[sys.argv.index("--repo") + 1] if "--repo" in sys.argv else "/repo"
+only = sys.argv[sys.argv.index("--prop") + 1].split(",") if "--prop" in sys.argv else None
 D = "crates/rs1090/src/decode/"
 BDS = [D + f"bds/bds{n}.rs" for n in "05 06 08 09 10 17 18 19 20 21 30 40 44 45 50 60 61 62 65".split()]
 DEC = [D + "mod.rs", D + "adsb.rs", D + "commb.rs", D + "crc.rs"] + BDS
@@ -36,17 +37,50 @@ PINNED = {
     "C18": [(D + "time.rs", None)],
 }
 import re
-pins = {}
+try:
+    pins = json.load(open(os.path.join(R, "gen", "pins.json"))) if only else {}
+except OSError:
+    pins = {}
 for prop, files in PINNED.items():
+    if only and prop not in only:
+        continue
     pins[prop] = {}
     for f, pat in files:
         its = pinlib.items(os.path.join(repo, f))
+        for name, text in pinlib.item_texts(os.path.join(repo, f)).items():
+            if any(text.count(a) != text.count(b) for a, b in ("{}", "()", "[]")) or text[-1] not in "};":
+                sys.exit(f"{f} :: {name}: item text is not a balanced item (pinlib splitting bug?): …{text[-60:]}")
         pins[prop][f] = {k: v for k, v in its.items() if pat is None or re.search(pat, k)}
         if not pins[prop][f]:
             sys.exit(f"{prop}: nothing selected in {f}")
 json.dump(pins, open(os.path.join(R, "gen", "pins.json"), "w"), indent=1, sort_keys=True)
 os.makedirs(os.path.join(R, "lean/Rs1090/Pins"), exist_ok=True)
+# the property-bearing theorem names, so that a theorem cannot silently disappear
+import re as _re
+try:
+    thms = json.load(open(os.path.join(R, "gen", "theorems.json")))
+except OSError:
+    thms = {}
 for prop in pins:
+    if only and prop not in only:
+        continue
+    src = _re.sub(r"/-.*?-/", "", open(os.path.join(R, f"lean/Rs1090/Props/{prop}.lean")).read(), flags=_re.S)
+    ns, names = [], []
+    for line in src.split("\n"):
+        m = _re.match(r"\s*namespace\s+(\S+)", line)
+        if m:
+            ns.append(m.group(1))
+        m = _re.match(r"\s*end\s+(\S+)", line)
+        if m and ns and ns[-1] == m.group(1):
+            ns.pop()
+        m = _re.match(r"\s*(?:private\s+|protected\s+)?theorem\s+([^\s:({\[]+)", line)
+        if m:
+            names.append(".".join(ns + [m.group(1)]))
+    thms[prop] = names
+json.dump(thms, open(os.path.join(R, "gen", "theorems.json"), "w"), indent=1, sort_keys=True)
+for prop in pins:
+    if only and prop not in only:
+        continue
     vals = [int(pins[prop][f][n], 16) for f in sorted(pins[prop]) for n in sorted(pins[prop][f])]
     names = [f"{f} :: {n}" for f in sorted(pins[prop]) for n in sorted(pins[prop][f])]
     with open(os.path.join(R, f"lean/Rs1090/Pins/{prop}.lean"), "w") as o:
